@@ -767,6 +767,8 @@ def run(ctx):
                 "every other sub-device's bounds requested on each sub-device, judged against the triple reported for THAT sub-device. "
                 "distinct = (conversion, table, row, triple, value); all non-trivial (a real set call on a real parameter)")
     hres = Result("C06")
+    import c06life
+    c06life.run_lifetime(ctx, hres)       # overlapping calls x reports that move the bounds (rig of harness/setm.py, own loop)
     pd.run(run_histories(ctx, hres))      # first: its failures must not be crowded out by the 200-failure cap
     pd.run(run_async(ctx, res))
     res.failures = hres.failures + res.failures
@@ -777,7 +779,11 @@ def run(ctx):
     res.extra.update(hres.extra)
     res.rule += ("; PLUS histories per row: reports through real frames (same value/other bounds, other value, after an unconfirmed "
                  "set = while pending) interleaved with set calls, compared with the Lean report machine (c06hist) and each call judged "
-                 "by C06.spec against (value held, bounds of the LAST report)")
+                 "by C06.spec against (value held, bounds of the LAST report)"
+                 "; PLUS lifetimes of one parameter (9 unscaled targets: ecoMAX / mixer / thermostat / schedule, second sub-devices): 2..4 set "
+                 "calls, sequential or OVERLAPPING, x reports that narrow / widen / shift the bounds x retry timers x executor held, judged by "
+                 "C06L.judge (every transmission against the bounds reported last; F7 only where the check-once machine transmits too) and "
+                 "compared with the machine SetL")
     return res
 
 
@@ -786,6 +792,10 @@ def replay(ctx):
     res = Result("C06")
     res.rule = "replay of one recorded (table, row, triple, value)"
     inp = f["input"]
+    if "lifetime" in inp:
+        import c06life
+        c06life.run_lifetime(dict(ctx, tier="quick"), res, only=inp["lifetime"])
+        return res
     if "history" in inp:
         evs = [("R", tuple(e[1])) if e[0] == "R" else (("S", e[1], e[2]) if e[0] == "S" else ("T",)) for e in inp["history"]]
         pd.run(run_histories(dict(ctx, tier="quick"), res, only=dict(table=inp["table"], row=inp["row"], events=evs)))
